@@ -3,5 +3,5 @@
 From Coq Require Import ZArith List.
 Require Extraction.
 Require Import ExtrOcamlBasic ExtrOcamlZBigInt.
-From DosVerif Require Import Base.Val Models.EntryShare Models.EntryTbls Models.Framing Models.QueryLoop Models.Stages Models.EntryVss Models.EntryBn Models.GtCodec Models.Evm Models.Recover Models.Guards Models.P2PRecv Models.Dispatch Models.ConnTable Models.Abi Models.Adaptor Models.AdaptorGas Models.FirstEvent Models.Schnorr Models.Ed Models.EdCodec.
-Extraction "model.ml" entry_share entry_tbls entry_framing entry_queryloop entry_stages entry_vss entry_bn2 entry_gt entry_evm entry_recover entry_guards entry_p2precv entry_dispatch entry_conntable entry_abi entry_adaptor entry_adaptor_gas entry_firstevent entry_sc entry_ed entry_edcodec.
+From DosVerif Require Import Base.Val Models.EntryShare Models.EntryTbls Models.Framing Models.QueryLoop Models.Stages Models.EntryVss Models.EntryBn Models.EntryAsm Models.GtCodec Models.Evm Models.Recover Models.Guards Models.P2PRecv Models.Dispatch Models.ConnTable Models.Abi Models.Adaptor Models.AdaptorGas Models.FirstEvent Models.Schnorr Models.Ed Models.EdCodec.
+Extraction "model.ml" entry_share entry_tbls entry_framing entry_queryloop entry_stages entry_vss entry_bn2 entry_asm entry_gt entry_evm entry_recover entry_guards entry_p2precv entry_dispatch entry_conntable entry_abi entry_adaptor entry_adaptor_gas entry_firstevent entry_sc entry_ed entry_edcodec.
